@@ -96,6 +96,21 @@ def lm(ctx):
                             "%s() is counted in the length and %s" % (h, "its value is written" if em else "its value is NEVER written by encode()"),
                             "a length prefix that is counted must be on the wire"))
             if em and h != "remaining_len":
+                # a length prefix is written whatever its value (0 included): its emission does not hang on a test of
+                # that very length (remaining_len() counts the prefix byte of an empty section too)
+                selfdep = []
+                for e_ in em:
+                    for (d_, s__) in enc.control_dep_closure(e_["bb"]):
+                        c_ = Cond(enc, d_)
+                        ops__ = [c_.a, c_.b] if c_.kind == "cmp" else (list(getattr(c_, "args", [])) if c_.kind == "call" else [])
+                        for x_ in ops__:
+                            if x_ is None or x_.get("k") == "const":
+                                continue
+                            if any(a[0] == "call" and (a[1].startswith(info["adt"] + "::") or codecinfo_trait_method(a[1], info["adt"])) and a[1].split("::")[-1] == h for a in enc.atoms(x_)):
+                                selfdep.append(enc.site(d_))
+                out.append(Inst("LM", "%s:LM3:%s:unconditional" % (name, h), not selfdep, enc.site(em[0]["bb"]),
+                                "the emission of %s() %s" % (h, "does not depend on its own value" if not selfdep else "hangs on a test of its own value at %s" % sorted(set(selfdep))),
+                                "the prefix of an empty section is one zero byte, and it is counted"))
                 own, _ = own_len_fields(ctx, info, h)
                 for f in sorted(own):
                     for e in emitted_fields.get(f, []):
@@ -303,6 +318,12 @@ def lm(ctx):
             m_, e_ = meas.get(f, set()), emit_t.get(f, set())
             if not m_ and (ftypes.get(f) in counted_ty):
                 m_ = {_norm_ty(ftypes[f])}
+            if not m_ and f in rem_fields and e_:
+                # counted (LM-1 / LM-4 decide that) through a helper of another layer that this rule does not look into
+                # (`core::utils::total_byte_len(&self.f)`): which type's byte_len() measures it is not read off here
+                out.append(Inst("LM", "%s:LM6:%s" % (name, f), True, site0, "field %s: NOT DECIDED, it is counted through a helper this rule does not look into; written as %s" % (f, sorted(short_ty(x) for x in e_)),
+                                "the same values are measured and written", {"undecided": True}))
+                continue
             if not e_ and f in packed:
                 continue
             def _abstract(t_):
@@ -317,6 +338,22 @@ def lm(ctx):
             ok = m_ == e_
             out.append(Inst("LM", "%s:LM6:%s" % (name, f), ok, site0, "field %s: measured with byte_len as %s, written as %s" % (f, sorted(short_ty(x) for x in m_), sorted(short_ty(x) for x in e_)),
                             "the same values are measured and written"))
+        # LM-7: a length is never squeezed through a narrower integer on its way into the length field (`sum as u16`
+        # wraps the property length of a large packet while every byte is still written)
+        WIDTH = {"u8": 8, "u16": 16, "u32": 32, "u64": 64, "usize": 64}
+        narrowing = []
+        for hname, hb in sorted(info["helpers"].items()):
+            if not hname.endswith("_len"):
+                continue
+            for i in sorted(hb.reach):
+                for st in hb.blocks[i]["stmts"]:
+                    if st["k"] == "assign" and st["rv"]["k"] == "cast" and st["rv"].get("kind") == "IntToInt" and st["rv"]["op"].get("k") != "const":
+                        o = st["rv"]["op"]
+                        src = hb.locals[o["pl"]["l"]]["ty"] if not o["pl"]["p"] else None
+                        if WIDTH.get(src) and WIDTH.get(st["rv"]["ty"]) and WIDTH[st["rv"]["ty"]] < WIDTH[src]:
+                            narrowing.append("%s: `%s as %s` at line %d" % (hname, src, st["rv"]["ty"], st["line"]))
+        out.append(Inst("LM", "%s:LM7:no-narrowing-in-lengths" % name, not narrowing, site0, "narrowing casts in the length helpers: %s" % (narrowing or "none"),
+                        "a length reaches its length field with all its bits (or the conversion is checked)"))
     return out
 
 
@@ -553,13 +590,14 @@ def bits(ctx):
     want = dict(flags["publish_header"])
     out += _or_tree_check(ctx, "publish_header", b, info["adt"], {k: v for k, v in want.items() if k != "type"}, {}, const_terms={types["PUBLISH"] << want["type"]: "type"})
     # SubscriptionOptions::encode
-    so = ctx.body(r"codec::subscribe::SubscriptionOptions as core::utils::Encode>::encode$")
+    so = ctx.flat(ctx.body(r"codec::\w+::SubscriptionOptions as core::utils::Encode>::encode$"))
     val = None
     for i, t in so.calls(r"Encoder::encode$"):
         val = t["ops"][1]
     if val is None:
         raise AnchorLost("emission in SubscriptionOptions::encode")
-    out += _or_tree_check(ctx, "subscription_options", so, "codec::subscribe::SubscriptionOptions", flags["subscription_options"], {}, expr=symex(so, val))
+    so_adt = re.search(r"<(codec::\w+::SubscriptionOptions) as", so.path).group(1)
+    out += _or_tree_check(ctx, "subscription_options", so, so_adt, flags["subscription_options"], {}, expr=symex(so, val))
     # PublishRx decoder: setter(arg) expressions
     from r_codec_rx import rx_decoders
     pd = rx_decoders(ctx)["PublishRx"][1]       # private helpers (e.g. a flag-parsing function) inlined
@@ -596,7 +634,7 @@ def bits(ctx):
                             tt = rb.term(j)
                             if tt["k"] == "call" and (tt["callee"] or {}).get("name") == "try_decode":
                                 dec = short_ty(re.sub(r"<.*", "", tt["callee"].get("self_ty") or "?"))
-                                if "AckRx" in (tt["callee"].get("self_ty") or ""):
+                                if re.search(r"Rx<.*?(\w+)Reason>", tt["callee"].get("self_ty") or ""):
                                     dec = short_ty(re.search(r"(\w+)Reason>", tt["callee"]["self_ty"]).group(1)) + "Rx"
                                 break
                         wantt = {vv: k for k, vv in types.items()}.get(v, "?")
@@ -737,6 +775,12 @@ def ids(ctx):
                             for st in cb.blocks[k]["stmts"]:
                                 if st["k"] == "assign" and st["rv"]["k"] == "agg" and (st["rv"].get("adt") or "").endswith("properties::Property"):
                                     var = st["rv"]["variant"]
+            # ... or its constructor is handed to a helper that applies it to the decoded value (`decode_value::<T, P>(decoder, Property::X)`)
+            if tt["k"] == "call" and var is None:
+                for o_ in tt["ops"]:
+                    for a in (pd.atoms(o_) if o_.get("k") != "const" else ([("fnitem", (o_.get("fn") or {}).get("def"))] if o_.get("fn") else [])):
+                        if a[0] == "fnitem" and a[1] and re.match(r"core::properties::Property::\w+$", a[1]) and ctx.facts.fn(a[1]) is None:
+                            var = a[1].split("::")[-1]
         nm = id2name.get(v, "?")
         ok = WIRE.get(dec) == props["wire"].get(nm) and var == nm
         out.append(Inst("IDS", "wire:%d" % v, ok, pd.site(s_), "property id %d decodes a %s into Property::%s" % (v, short_ty(dec or "?"), var), "%s as %s" % (nm, props["wire"].get(nm))))
@@ -760,12 +804,14 @@ def _norm(st):
 
 
 def _packet_of(st):
+    # a packet type generic over its reason enum (`AckRx<PubackReason>`, `ReasonListRx<SubackReason>`) is the packet of
+    # that reason
+    m = re.search(r"(Tx|Rx)<.*::(\w+)Reason>", st)
+    if m:
+        return m.group(2).upper()
     m = re.search(r"::(\w+?)(Tx|Rx)\b", st)
     if m and m.group(1) != "Ack":
         return m.group(1).upper()
-    m = re.search(r"Ack(Tx|Rx)<.*::(\w+)Reason>", st)
-    if m:
-        return m.group(2).upper()
     return None
 
 
